@@ -86,9 +86,42 @@ inductive PairBad (s : Schema) (d : Document) : AstAndDef → AstAndDef → Prop
   | shape {a b : AstAndDef} : ShapeBad s d a b → PairBad s d a b
   | name {a b : AstAndDef} : parentsMayCoincide a b = true → (a.field.name == b.field.name) = false → PairBad s d a b
   | args {a b : AstAndDef} : parentsMayCoincide a b = true →
-      identicalArguments a.field.args b.field.args = false → PairBad s d a b
+      (identicalArguments a.field.args b.field.args = false ∨ identicalArguments b.field.args a.field.args = false) →
+      PairBad s d a b
   | nested {a b x y : AstAndDef} : parentsMayCoincide a b = true → MemSub s d a x → MemSub s d b y →
       keyOf x = keyOf y → PairBad s d x y → PairBad s d a b
+  | nestedSwap {a b x y : AstAndDef} : parentsMayCoincide a b = true → MemSub s d a x → MemSub s d b y →
+      keyOf x = keyOf y → PairBad s d y x → PairBad s d a b
+
+theorem typesAgree_comm (s : Schema) (a b : AstAndDef) : typesAgree s a b = typesAgree s b a := by
+  unfold typesAgree
+  cases a.fdef <;> cases b.fdef <;> simp [C05.shapesAgree_comm]
+
+theorem parentsMayCoincide_comm (a b : AstAndDef) : parentsMayCoincide a b = parentsMayCoincide b a := by
+  unfold parentsMayCoincide
+  have : (optName a.parent != optName b.parent) = (optName b.parent != optName a.parent) := by
+    by_cases h : optName a.parent = optName b.parent
+    · simp [h]
+    · have h' : ¬ optName b.parent = optName a.parent := fun e => h e.symm
+      simp only [bne, beq_eq_false_iff_ne.2 h, beq_eq_false_iff_ne.2 h']
+  rw [this]
+  cases (optName b.parent != optName a.parent) <;> cases optIsObject a.parent <;> cases optIsObject b.parent <;> rfl
+
+theorem ShapeBad.symm {s : Schema} {d : Document} {a b : AstAndDef} (h : ShapeBad s d a b) : ShapeBad s d b a := by
+  induction h with
+  | types h => exact .types (by rw [typesAgree_comm]; exact h)
+  | nested hx hy hk _ ih => exact .nested hy hx hk.symm ih
+
+theorem PairBad.symm {s : Schema} {d : Document} {a b : AstAndDef} (h : PairBad s d a b) : PairBad s d b a := by
+  induction h with
+  | shape h => exact .shape h.symm
+  | name hp hn =>
+    refine .name (by rw [parentsMayCoincide_comm]; exact hp) ?_
+    simp only [beq_eq_false_iff_ne, ne_eq] at hn ⊢
+    exact fun e => hn e.symm
+  | args hp ha => exact .args (by rw [parentsMayCoincide_comm]; exact hp) ha.symm
+  | nested hp hx hy hk h _ => exact .nestedSwap (by rw [parentsMayCoincide_comm]; exact hp) hy hx hk.symm h
+  | nestedSwap hp hx hy hk h _ => exact .nested (by rw [parentsMayCoincide_comm]; exact hp) hy hx hk.symm h
 
 /-- what a comparison under the flag `me` (parents mutually exclusive) can find -/
 def Fails (s : Schema) (d : Document) (me : Bool) (a b : AstAndDef) : Prop :=
@@ -98,6 +131,11 @@ theorem Fails.of_shape {s : Schema} {d : Document} {a b : AstAndDef} (me : Bool)
   cases me
   · exact PairBad.shape h
   · exact h
+
+theorem Fails.symm {s : Schema} {d : Document} {me : Bool} {a b : AstAndDef} (h : Fails s d me a b) : Fails s d me b a := by
+  cases me
+  · exact PairBad.symm h
+  · exact ShapeBad.symm h
 
 /-! ### what the collector puts into its map and its list of names -/
 
@@ -143,12 +181,6 @@ theorem keyOk_alUpdate {fm : FieldMap} {a : AstAndDef} (h : KeyOk fm) : KeyOk (a
     · simp at hx; subst hx; rfl
 
 theorem keyOk_nil : KeyOk [] := by intro kv h; simp at h
-
-/-- the invariant of the collector: map values are fields the spec collects without following
-    spreads; a recorded name is a spread the spec would follow from here -/
-structure CollInv (s : Schema) (F : List AstAndDef) (N : List Name → Prop) (acc : FieldMap × List Name) : Prop where
-  keyOk : KeyOk acc.1
-  fields : ∀ a, FM acc.1 a → a ∈ F
 
 mutual
 theorem collectSel_fields (s : Schema) : ∀ (x : Selection) (parent : Option TypeDef) (acc : FieldMap × List Name) (a : AstAndDef),
